@@ -74,18 +74,26 @@ macro_rules! run_typed {
         for g in &sr { put_gr(&mut w, g); }
         let n = s.len() + 4;
         w.n(n);
-        for i in 0..n {
+        // get_region / get_chrom are asked in an order that is a function of the case (ascending, descending, from the middle
+        // outwards) and reported in ascending order: a lookup must not depend on the lookups made before it
+        let order: Vec<usize> = match mode_of(&[c.bin.to_string(), c.ops.len().to_string(), c.regions.len().to_string()]) % 3 {
+            0 => (0..n).collect(), 1 => (0..n).rev().collect(), _ => { let m = n / 2; (0..n).map(|k| if k % 2 == 0 { (m + k / 2) % n } else { (m + n - 1 - k / 2) % n }).collect() } };
+        let mut looked: Vec<Vec<String>> = vec![vec![]; n];
+        for &i in &order {
+            let mut w2 = W::new();
             match std::panic::catch_unwind(std::panic::AssertUnwindSafe(|| s.get_region(i))) {
-                Err(_) => { w.s("P"); }
-                Ok(None) => { w.s("0"); }
-                Ok(Some(g)) => { w.s("1"); put_gr(&mut w, &g); }
+                Err(_) => { w2.s("P"); }
+                Ok(None) => { w2.s("0"); }
+                Ok(Some(g)) => { w2.s("1"); put_gr(&mut w2, &g); }
             }
             match std::panic::catch_unwind(std::panic::AssertUnwindSafe(|| s.get_chrom(i).map(|x| x.to_string()))) {
-                Err(_) => { w.s("P"); }
-                Ok(None) => { w.s("0"); }
-                Ok(Some(ch)) => { w.s("1").b(ch.as_bytes()); }
+                Err(_) => { w2.s("P"); }
+                Ok(None) => { w2.s("0"); }
+                Ok(Some(ch)) => { w2.s("1").b(ch.as_bytes()); }
             }
+            looked[i] = w2.0;
         }
+        for l in looked { for x in l { w.s(&x); } }
         w.join()
     }};
 }
